@@ -104,6 +104,8 @@ pub struct Rendered {
     /// (start, end, other spelling) of end tags whose element name has another spelling in scope:
     /// the same expanded name through another prefix (or the default namespace)
     pub close_alts: Vec<(usize, usize, String)>,
+    /// normalised values of the xml:id attributes that are spelled with another prefix than `xml`
+    pub alias_ids: Vec<String>,
     /// offsets in character data outside CDATA, between pieces
     pub text_points: Vec<usize>,
     /// offsets inside attribute values, between pieces
@@ -159,6 +161,7 @@ pub struct R<'a> {
     pub tag_points: Vec<TagPoint>,
     pub close_tags: Vec<(usize, usize)>,
     pub close_alts: Vec<(usize, usize, String)>,
+    pub alias_ids: Vec<String>,
     pub text_points: Vec<usize>,
     pub attr_points: Vec<usize>,
     pub decl_points: Vec<usize>,
@@ -178,6 +181,7 @@ impl<'a> R<'a> {
             tag_points: vec![],
             close_tags: vec![],
             close_alts: vec![],
+            alias_ids: vec![],
             text_points: vec![],
             attr_points: vec![],
             decl_points: vec![],
